@@ -158,6 +158,9 @@ pub enum Outcome {
     Ok { frac: u16 },
     /// Failure with the `idx`-th errno of [`ERRNOS`].
     Err { idx: u8 },
+    /// The kernel refuses the submission while submitting it (K15): the
+    /// error completion is posted at consumption.
+    Refused { idx: u8 },
 }
 
 /// Errnos used for scripted failures. EINTR/ECANCELED are faults (restart),
@@ -528,7 +531,7 @@ impl OpState {
     /// performs the memory effects through the request's regions (K6) and
     /// returns `(res, flags)`. Sets `self.expect`.
     pub fn kernel_complete(&mut self, req: &Req, outcome: &Outcome) -> Result<(i32, u32), String> {
-        if let Outcome::Err { idx } = outcome {
+        if let Outcome::Err { idx } | Outcome::Refused { idx } = outcome {
             let e = ERRNOS[(*idx as usize + self.id) % ERRNOS.len()];
             self.expect = Some(Expect::Errno(e));
             return Ok((-e, 0));
